@@ -109,6 +109,10 @@ func init() {
 				}
 				p.Spec.IgnoreDropped = true
 				p.Spec.Interactive, p.Spec.Verbose = r.IntN(3) == 0, r.IntN(4) == 0
+				if mode != "file" && mode != "filespan" {
+					// registered through CombineScenarios in a third of the cases (with a passing companion)
+					p.Spec.Combine = pick(r, 0, 0, 2)
+				}
 				ns := r.IntN(5)
 				for k := 0; k < ns; k++ {
 					f := cfPass
